@@ -203,6 +203,9 @@ theorem closed_implies_outcome_http1 (l t : Nat) (evs : List Ev) (ha : Admissibl
 -- HTTP/2 (and HTTP/3): the same emitter with `RequestTrailers` / `ResponseTrailers` (trailers only while the body is
 -- being read; the stream sends them on after the request / response hook).  `Admissible` covers these histories, so
 -- the statements above hold for them verbatim; they are restated under the protocol's name.
+-- (Restatements, not new results: one emitter model serves HTTP/1, /2 and /3, so this file has 13 distinct statements —
+-- the 6 hypothesis forms, `grammar_holds`, the 6 `_http1` forms; the 12 `_http2`/`_http3` names are aliases whose
+-- protocol-specific content is the tie `adm=1` on real HTTP/2 and HTTP/3 streams.)
 
 theorem requestheaders_first_http2 (l t : Nat) (evs : List Ev) (ha : Admissible l t evs)
     (pre post : List Out) (h : Hook) (hsplit : (run l t evs).trace = pre ++ .hook h :: post) :
